@@ -150,6 +150,8 @@ def scenarios(pid, tier, seed):
             {"args": ["scen", "family=transpositions", "count=%d" % (40 if q else 400), "ops=genl", "sync=1", S], "shards": 1},
             {"args": ["scen", "family=epfamilies", "ops=genl", "sync=1", S], "shards": 1},
             {"args": ["scen", "family=revisits", "ops=genl", "walkpos=%d" % (60 if q else 2000), S], "shards": 4},
+            # the same placement met again after castling rights have gone (kings and home rooks out and back, three times over)
+            {"args": ["scen", "family=rightsrevisits", "ops=genl", "rounds=3", "setups=%d" % (40 if q else 1500), "walkpos=0", S], "shards": 8},
         ]
     if pid == "C03":
         return [
@@ -170,6 +172,7 @@ def scenarios(pid, tier, seed):
             {"args": ["scen", "family=walk", "count=%d" % (32 if q else 480), "len=120", "undo=15", "ops=snap,key", S], "shards": 16},
             {"args": ["scen", "family=transpositions", "count=%d" % (60 if q else 1500), "ops=snap,key", S], "shards": 1},
             {"args": ["scen", "family=epfamilies", "ops=snap,key", S], "shards": 1},
+            {"args": ["scen", "family=rightsrevisits", "ops=snap,key", "rounds=3", "setups=%d" % (40 if q else 1500), "walkpos=0", S], "shards": 8},
         ]
     if pid == "C06":
         return [
@@ -216,7 +219,15 @@ def scenarios(pid, tier, seed):
         return [
             {"args": ["scen", "family=searches", "depths=1,2", "pools=1,4,16", "walkpos=%d" % (6 if q else 400), "game=%d" % (3 if q else 12), "maxpieces=%d" % (20 if q else 32), S], "shards": 16},
             {"args": ["scen", "family=searches", "depths=3", "pools=1,4,16", "maxpieces=%d" % (6 if q else 16), "walkpos=%d" % (6 if q else 300), "game=%d" % (2 if q else 10), S], "shards": 16},
-        ]
+            # one context, the same placement searched at several half-move clocks (near the move-count draw)
+            {"args": ["scen", "family=searches", "depths=%s" % ("2" if q else "2,3"), "pools=1,4", "clocks=1", "maxpieces=%d" % (5 if q else 12), "walkpos=%d" % (4 if q else 200), S], "shards": 16},
+            # depth 5: the first depth at which two root moves' subtrees share a position with two or more plies still to
+            # search.  Decided by the harness against a plain minimax over the engine's own generator and leaf score
+            # (the extracted model needs ~25 s per depth-5 position; it is the oracle of the thorough tier's sample below)
+            {"args": ["scen", "family=searches", "depths=5", "pools=1,4", "selfmm=1", "maxpieces=4", "walkpos=%d" % (400 if q else 4000), "game=%d" % (0 if q else 3), S], "shards": 16},
+        ] + ([] if q else [
+            {"args": ["scen", "family=searches", "depths=4,5", "pools=1,4", "maxpieces=4", "walkpos=100", S], "shards": 16},
+        ])
     if pid == "C09":
         return [
             {"args": ["scen", "family=schedules", "depths=2", "per=%d" % (4 if q else 12), "walkpos=%d" % (3 if q else 200), "maxpieces=%d" % (9 if q else 32), S], "shards": 16},
